@@ -253,3 +253,59 @@ __CPROVER_ensures(RET > timestamp && RET - timestamp <= 43200) /*@ C13 "the reca
     dropped=['std::chrono::system_clock::from_time_t / duration_cast<seconds> round trip as identity on seconds', 'struct tm date fields (pass through libc unchanged)'],
     trusted=['libc gmtime_r / timegm by the linear UTC model LIBC_breakdown / LIBC_assemble (exact for POSIX time)'], min_obligations=5)
 UNITS.append(noon_midnight)
+
+# ------------------------------------------------------------------------------------------ TimestampFormatter::_write_fractional_seconds
+WF_PRELUDE = r'''
+#define DATE_CAP 24
+typedef struct TFw { char g_date[DATE_CAP]; size_t g_date_n; } TFw;     /* _formatted_date: characters + size */
+typedef struct FInt { char b[10]; unsigned n; } FInt;                   /* fmtquill::format_int: decimal digits of the value, no leading zeros */
+#define P10(k) ((k) == 0 ? 1u : (k) == 1 ? 10u : (k) == 2 ? 100u : (k) == 3 ? 1000u : (k) == 4 ? 10000u : (k) == 5 ? 100000u : (k) == 6 ? 1000000u : (k) == 7 ? 10000000u : (k) == 8 ? 100000000u : 1000000000u)
+#define NDIG(v) ((v) < 10u ? 1u : (v) < 100u ? 2u : (v) < 1000u ? 3u : (v) < 10000u ? 4u : (v) < 100000u ? 5u : (v) < 1000000u ? 6u : (v) < 10000000u ? 7u : (v) < 100000000u ? 8u : (v) < 1000000000u ? 9u : 10u)
+/* SPEC (trusted text): the zero-padded decimal representation of the value handed to format_int; g_dig[k] = digit k counted from the right.
+   The digits are computed ONCE, here: CBMC encodes x / c as a relation (q * c + r == x), so a second copy of the same division in the
+   postcondition makes SAT prove the uniqueness of quotients (no answer in 200 s); with the digits named once the unit takes seconds. */
+unsigned char g_dig[10];
+#define SPEC_DIGIT(v, k, n) ((k) < (n) ? (unsigned char)(((v) / P10(k)) % 10u) : (unsigned char)0)
+/* TRUSTED executable model of fmtquill::format_int(uint32_t): data() / size() denote the minimal decimal representation */
+static inline FInt FORMAT_INT(uint32_t v) { FInt r; r.n = NDIG(v);
+  g_dig[0] = SPEC_DIGIT(v, 0, r.n); g_dig[1] = SPEC_DIGIT(v, 1, r.n); g_dig[2] = SPEC_DIGIT(v, 2, r.n); g_dig[3] = SPEC_DIGIT(v, 3, r.n); g_dig[4] = SPEC_DIGIT(v, 4, r.n);
+  g_dig[5] = SPEC_DIGIT(v, 5, r.n); g_dig[6] = SPEC_DIGIT(v, 6, r.n); g_dig[7] = SPEC_DIGIT(v, 7, r.n); g_dig[8] = SPEC_DIGIT(v, 8, r.n); g_dig[9] = SPEC_DIGIT(v, 9, r.n);
+  for (unsigned i = 0; i < r.n; i++) { r.b[i] = (char)('0' + g_dig[r.n - 1u - i]); }
+  return r; }
+static inline size_t FI_size(FInt const* f) { return f->n; }
+static inline char const* FI_data(FInt const* f) { return f->b; }
+static inline size_t DATE_size(TFw* s) { return s->g_date_n; }
+static inline char* DATE_at(TFw* s, size_t i) { __CPROVER_assert(i < s->g_date_n, "the fraction starts inside the rendered text"); return &s->g_date[i]; }
+/* libc memcpy as a byte loop (the copy is at most 10 digits long) */
+static inline void MEMCPY_BYTES(char* d, char const* s, size_t n) { for (size_t i = 0; i < n; i++) { d[i] = s[i]; } }
+#define memcpy(d, s, n) MEMCPY_BYTES(d, s, n)
+unsigned g_w; size_t g_j; char SNAP_j;       /* width of the zero field; one arbitrary byte in front of the field */
+#define FIELD(s, k) ((s)->g_date[(s)->g_date_n - 1 - (k)])                 /* character k of the field, counted from the right */
+#define ZERO(s, k) ((k) < g_w ==> FIELD(s, k) == '0')
+#define DG(s, k) ((k) < g_w ==> FIELD(s, k) == (char)('0' + g_dig[k]))
+'''
+tf_write_frac = dict(
+    name='TF.write_frac', primary='C13', props={'C13'}, kind='L',
+    desc='TimestampFormatter::_write_fractional_seconds: the decimal digits are right-aligned over the zero field, so the field reads as the zero-padded fraction; nothing in front of the field changes',
+    structs=[], prelude=WF_PRELUDE, enforce='TF__write_fractional_seconds', replace=[],
+    funcs=[dict(src=dict(header=TFH, cls='TimestampFormatter', name='_write_fractional_seconds'), src_params=['extracted_fractional_seconds'], cfun='TF__write_fractional_seconds',
+                sig='void TF__write_fractional_seconds(TFw* self, uint32_t extracted_fractional_seconds)', cls_c='TF', member_fields=[],
+                pre_rules=[(r'fmtquill::format_int\s+const\s+(\w+)\{extracted_fractional_seconds\}\s*;', r'FInt const \1 = FORMAT_INT(extracted_fractional_seconds);', '!'),
+                           (r'&_formatted_date\[([^\[\]]*)\]', r'DATE_at(self, \1)'), (r'_formatted_date\.size\(\)', 'DATE_size(self)'),
+                           (r'\b(extracted_\w+_string)\.size\(\)', r'FI_size(&\1)'), (r'\b(extracted_\w+_string)\.data\(\)', r'FI_data(&\1)')],
+                contract=r'''
+__CPROVER_requires(__CPROVER_is_fresh(self, sizeof(*self)) && self->g_date_n >= 1 && self->g_date_n <= DATE_CAP)
+__CPROVER_requires((g_w == 3 || g_w == 6 || g_w == 9) && self->g_date_n >= g_w && extracted_fractional_seconds < P10(g_w))
+__CPROVER_requires(ZERO(self, 0) && ZERO(self, 1) && ZERO(self, 2) && ZERO(self, 3) && ZERO(self, 4) && ZERO(self, 5) && ZERO(self, 6) && ZERO(self, 7) && ZERO(self, 8))
+__CPROVER_requires(g_j < self->g_date_n - g_w && SNAP_j == self->g_date[g_j])
+__CPROVER_assigns(__CPROVER_object_whole(self), __CPROVER_object_whole(g_dig))
+__CPROVER_ensures(DG(self, 0) && DG(self, 1) && DG(self, 2) && DG(self, 3) && DG(self, 4) && DG(self, 5) && DG(self, 6) && DG(self, 7) && DG(self, 8)) /*@ C13 "%Qms / %Qus / %Qns is replaced by the exact zero-padded fraction: character k of the field of width 3 / 6 / 9 (from the right) is decimal digit k of the value, zero beyond its digits" */
+__CPROVER_ensures(self->g_date[g_j] == SNAP_j && self->g_date_n == OLD(self->g_date_n)) /*@ C13 "writing the fraction changes nothing in front of the zero field and not the length (the strftime part stays as rendered)" */
+''')],
+    harness='  TFw* t; uint32_t v; TF__write_fractional_seconds(t, v);',
+    cbmc=['--unwind', '11', '--unwinding-assertions'],
+    dropped=['std::string _formatted_date as data pointer + size (the last at most 24 characters of the rendered text: the function touches the last 9 at most)'],
+    trusted=['fmtquill::format_int by an executable model (minimal decimal representation, digits defined by SPEC_DIGIT)', 'memcpy as a byte loop'],
+    assumes=['the zero field of width 3 / 6 / 9 was appended immediately before and the value has at most that many digits: both are preconditions the caller is checked against in unit TF.format_timestamp'],
+    min_obligations=6)
+UNITS.append(tf_write_frac)
